@@ -171,7 +171,10 @@ def rand_spec(rng, kind=None, c=None, scale=None, rot=None, smin=1e-2, smax=1e2,
         if kind == "hull":
             sp = {"kind": kind, "V": np.ascontiguousarray(V @ R.T + c), "sub": sub}
         else:
-            sp = {"kind": kind, "T": T, "V": V, "sub": sub}
+            # MeshGraph documents 'indices of vertices that form triangles' without a winding convention: besides
+            # consistently outward triangles, Qhull's raw simplices (mixed winding) and a flipped / rotated listing
+            w = str(rng.choice(["outward", "raw", "flipped"], p=[0.6, 0.2, 0.2]))
+            sp = {"kind": kind, "T": T, "V": V, "sub": sub + ("" if w == "outward" else "+winding:" + w), "winding": w}
     else:
         raise ValueError(kind)
     if margin_p and rng.random() < margin_p:
@@ -182,20 +185,27 @@ def rand_spec(rng, kind=None, c=None, scale=None, rot=None, smin=1e-2, smax=1e2,
 _TRI_CACHE = {}
 
 
-def triangles_for(V):
-    """Triangles of the convex hull of V with outward normals (scipy Qhull,
-    orientation fixed here; independent of distance3d.mesh.make_convex_mesh)."""
+def triangles_for(V, winding="outward"):
+    """Triangles of the convex hull of V (scipy Qhull; independent of distance3d.mesh.make_convex_mesh):
+    'outward' = consistently outward normals (orientation fixed here), 'raw' = Qhull's simplices as they come (mixed
+    winding), 'flipped' = every other triangle reversed, index order rotated, faces listed backwards."""
     from scipy.spatial import ConvexHull
-    key = V.tobytes()
+    key = V.tobytes() + winding.encode()
     if key in _TRI_CACHE:
         return _TRI_CACHE[key]
     ch = ConvexHull(V)
     tri = ch.simplices.copy()
+    if winding == "raw":
+        tri = np.ascontiguousarray(tri, dtype=np.int64)
+        _TRI_CACHE[key] = tri
+        return tri
     cen = V[ch.vertices].mean(axis=0)
     for i, t in enumerate(tri):
         n = np.cross(V[t[1]] - V[t[0]], V[t[2]] - V[t[0]])
         if n @ (V[t[0]] - cen) < 0:
             tri[i] = t[::-1]
+    if winding == "flipped":
+        tri = np.array([np.roll(t[::-1] if i % 2 else t, i % 3) for i, t in enumerate(tri)])[::-1]
     tri = np.ascontiguousarray(tri, dtype=np.int64)
     if len(_TRI_CACHE) > 200:
         _TRI_CACHE.clear()
@@ -238,12 +248,27 @@ def build_via_update(spec, rng):
         return build(spec)
     G = O.pose(rand_rot(rng), rng.normal(size=3) * 3)
     col = build(O.moved(spec, G))
-    if rng.random() < 0.5:
+    apply_pose(col, T, rng)
+    return col
+
+
+def apply_pose(col, T, rng, mode=None):
+    """hand the pose T to col.update_pose the ways callers do: 'fresh' array, one matrix of a C-contiguous 'stack', or
+    'inplace' = a pose buffer the collider has been given before, overwritten in place and handed over again (the
+    simulation-loop pattern; colliders keep a reference to the array they were given). Returns the mode used."""
+    mode = mode or str(rng.choice(["fresh", "stack", "inplace"], p=[0.4, 0.3, 0.3]))
+    T = np.array(T, dtype=float, order="C")
+    if mode == "stack":
         stack = np.ascontiguousarray(np.stack([np.eye(4), T, O.pose(rand_rot(rng), rng.normal(size=3))]))
         col.update_pose(stack[1])
+    elif mode == "inplace":
+        buf = np.ascontiguousarray(O.pose(rand_rot(rng), T[:3, 3] + rng.normal(size=3)))
+        col.update_pose(buf)
+        buf[...] = T
+        col.update_pose(buf)
     else:
         col.update_pose(T)
-    return col
+    return mode
 
 
 def build(spec):
@@ -273,7 +298,7 @@ def build(spec):
         return C.ConvexHullVertices(f(spec["V"]))
     if k == "mesh":
         V = f(spec["V"])
-        return C.MeshGraph(f(spec["T"]), V, triangles_for(V))
+        return C.MeshGraph(f(spec["T"]), V, triangles_for(V, spec.get("winding", "outward")))
     raise ValueError(k)
 
 
